@@ -1170,7 +1170,15 @@ impl TypeSpace {
         if let Some(ty) = maybe_type {
             Ok((TypeEntry::new_integer(ty), metadata))
         } else if format.as_deref() == Some("uint64") {
-            // Values of this format may exceed i64::MAX.
+            // Values of this format may exceed i64::MAX; none is negative.
+            let negative_default = metadata
+                .as_ref()
+                .and_then(|m| m.default.as_ref())
+                .and_then(|default| default.as_f64())
+                .map_or(false, |value| value < 0.0);
+            if negative_default {
+                return Err(Error::InvalidValue);
+            }
             Ok((TypeEntry::new_integer("u64"), metadata))
         } else {
             // TODO we could construct a type that itself enforces the various
